@@ -1,0 +1,14 @@
+/* Verification hooks.  With BEEBTOOLS_VERIF undefined (every normal
+ * build) VERIF_LOOP(name) expands to nothing.  With it defined, the
+ * verification harness supplies verif_loop_contracts.h (via -I), which
+ * defines VERIF_LOOP_<name> as the CBMC loop contract of that loop.
+ */
+#ifndef INC_VERIF_HOOKS_H
+#define INC_VERIF_HOOKS_H 1
+#ifdef BEEBTOOLS_VERIF
+#include "verif_loop_contracts.h"
+#define VERIF_LOOP(name) VERIF_LOOP_##name
+#else
+#define VERIF_LOOP(name)
+#endif
+#endif
